@@ -501,7 +501,7 @@ def oracle(ctx, deep=False):
     n_corpus = len(cases)
     n_align = ctx.scale(3000, 40000)
     if deep:
-        n_align = max(n_align, 24000)
+        n_align = max(n_align, 12000)
     for _ in range(n_align):
         cases.append(gen_align_case(ctx.rng))
     for _ in range(ctx.scale(300, 3000)):
@@ -781,3 +781,555 @@ def _model_intersection(cart, bsp, cfp):
     den = sum(lv[k] * normal[k] for k in range(3))
     d = num / den
     return [tb[k] + lv[k] * d for k in range(3)]
+
+
+# ================================================================================================ translator (T-tie)
+# A fail-closed translation of the numeric Python of the three anchored files into Gallina over the model's vocabulary.
+# Types: S scalar, V 3-vector, M 3x3 matrix, P Pose, B bool, LV list of vectors, LS list of scalars, LLS list of lists of
+# scalars, BS dict[int, Pose] (association list), LP list of Pose, TR the (bs, cf, factor) triple, OP option Pose.
+class TranslationError(Exception):
+    pass
+
+
+def _fail(node, msg):
+    raise TranslationError('%s (line %s: %s)' % (msg, getattr(node, 'lineno', '?'),
+                                                 ast.unparse(node)[:120] if isinstance(node, ast.AST) else node))
+
+
+def _is_name(n, name):
+    return isinstance(n, ast.Name) and n.id == name
+
+
+def _is_np(n, attr):
+    return isinstance(n, ast.Attribute) and n.attr == attr and _is_name(n.value, 'np')
+
+
+def _const(n):
+    if isinstance(n, ast.Constant) and isinstance(n.value, (int, float)) and not isinstance(n.value, bool):
+        return n.value
+    if isinstance(n, ast.UnaryOp) and isinstance(n.op, ast.USub):
+        v = _const(n.operand)
+        return None if v is None else -v
+    return None
+
+
+RESERVED = {'pose', 'vec', 'mat', 'rot', 'trans', 'norm', 'dot', 'dist', 'det', 'mid', 'mv', 'mm', 'rt', 'rtp', 'map', 'fst',
+            'snd', 'list', 'fun', 'let', 'in', 'match', 'with', 'end', 'if', 'then', 'else', 'o', 'F', 'R', 'Z', 'kv',
+            'residual', 'align', 'deflip', 'transpose', 'proper', 'orthogonal', 'sqrt', 'sin', 'cos', 'PI'}
+
+
+def _cid(name):
+    if not name.isidentifier():
+        raise TranslationError('bad identifier %r' % name)
+    return name + '_' if (name in RESERVED or name.endswith('_')) else name
+
+
+class Tr:
+    def __init__(self, env, real=False):
+        self.env = dict(env)          # python name -> (coq term, type)
+        self.o = 'Rops' if real else 'o'
+        self.real = real              # sqrt allowed (np.linalg.norm)
+        self.opt_match = None         # set when  list(d.values())[0]  was bound: result becomes an option
+
+    # ---------------------------------------------------------------- expressions
+    def scalar_const(self, n):
+        v = _const(n)
+        if v is None or v != int(v):
+            _fail(n, 'only integral numeric constants are translated')
+        return '(oZ %s (%d))' % (self.o, int(v))
+
+    def half_turn(self, call):
+        """Pose.from_rot_vec(R_vec=(0.0, 0.0, np.pi)) / ((np.pi, 0.0, 0.0)) with the default translation."""
+        kw = {k.arg: k.value for k in call.keywords}
+        if call.args or set(kw) != {'R_vec'} or not isinstance(kw['R_vec'], (ast.Tuple, ast.List)) or len(kw['R_vec'].elts) != 3:
+            _fail(call, 'Pose.from_rot_vec is translated only for the two constant half turns')
+        e = kw['R_vec'].elts
+        pat = ['pi' if _is_np(x, 'pi') else _const(x) for x in e]
+        if pat == [0, 0, 'pi']:
+            return '(flipZ %s)' % self.o, 'P'
+        if pat == ['pi', 0, 0]:
+            return '(flipX %s)' % self.o, 'P'
+        _fail(call, 'unrecognised constant rotation vector')
+
+    def expr(self, n):
+        o = self.o
+        if isinstance(n, ast.Name):
+            if n.id not in self.env:
+                _fail(n, 'unknown name')
+            return self.env[n.id]
+        if _const(n) is not None:
+            return self.scalar_const(n), 'S'
+        if isinstance(n, (ast.Tuple, ast.List)) and len(n.elts) == 3 and all(_const(x) is not None for x in n.elts):
+            return '(V3 %s %s %s)' % tuple(self.scalar_const(x) for x in n.elts), 'V'
+        if isinstance(n, ast.Attribute):
+            v, t = self.expr(n.value)
+            if t == 'P' and n.attr in ('rot_matrix', '_R_matrix'):
+                return '(rot %s)' % v, 'M'
+            if t == 'P' and n.attr in ('translation', '_t_vec'):
+                return '(trans %s)' % v, 'V'
+            if t == 'CART' and n.attr == 'cart':
+                return v, 'V'
+            _fail(n, 'attribute not in the fragment')
+        if isinstance(n, ast.BinOp):
+            a, ta = self.expr(n.left)
+            b, tb = self.expr(n.right)
+            op = type(n.op).__name__
+            table = {('Add', 'V', 'V'): 'vadd', ('Sub', 'V', 'V'): 'vsub', ('Add', 'S', 'S'): 'oadd', ('Sub', 'S', 'S'): 'osub',
+                     ('Mult', 'S', 'S'): 'omul', ('Div', 'S', 'S'): 'odiv', ('Mult', 'V', 'S'): 'smul', ('Div', 'V', 'S'): 'sdiv'}
+            if (op, ta, tb) in table:
+                f = table[(op, ta, tb)]
+                return '(%s %s %s %s)' % (f, o, a, b), ('V' if ta == 'V' else 'S')
+            if (op, ta, tb) == ('Mult', 'S', 'V'):
+                return '(smul %s %s %s)' % (o, b, a), 'V'
+            _fail(n, 'operator %s on types %s,%s not in the fragment' % (op, ta, tb))
+        if isinstance(n, ast.UnaryOp) and isinstance(n.op, ast.USub):
+            a, ta = self.expr(n.operand)
+            if ta == 'S':
+                return '(osub %s (oZ %s 0) %s)' % (o, o, a), 'S'
+            _fail(n, 'negation of a non-scalar')
+        if isinstance(n, ast.Compare) and len(n.ops) == 1 and isinstance(n.ops[0], ast.Lt):
+            a, ta = self.expr(n.left)
+            b, tb = self.expr(n.comparators[0])
+            if (ta, tb) == ('S', 'S'):
+                return '(oltb %s %s %s)' % (o, a, b), 'B'
+            _fail(n, 'comparison of non-scalars')
+        if isinstance(n, ast.Subscript):
+            v, t = self.expr(n.value)
+            sl = n.slice
+            if t == 'V' and _const(sl) in (0, 1, 2):
+                return '(%s %s)' % (['vx', 'vy', 'vz'][_const(sl)], v), 'S'
+            if t == 'V' and isinstance(sl, ast.Slice) and sl.step is None and _const(sl.lower) == 1 and _const(sl.upper) == 3:
+                return '[vy %s; vz %s]' % (v, v), 'LS'
+            _fail(n, 'subscript not in the fragment')
+        if isinstance(n, ast.Lambda):
+            _fail(n, 'lambda outside map()')
+        if isinstance(n, ast.ListComp) and len(n.generators) == 1 and not n.generators[0].ifs \
+                and isinstance(n.generators[0].target, ast.Name):
+            return self.mapped(n.generators[0].target.id, n.elt, n.generators[0].iter)
+        if isinstance(n, ast.Call):
+            return self.call(n)
+        _fail(n, 'expression not in the fragment')
+
+    def mapped(self, var, body, it):
+        xs, t = self.expr(it)
+        elt = {'LV': 'V', 'LS': 'S', 'LLS': 'LS', 'LP': 'P'}.get(t)
+        if elt is None:
+            _fail(it, 'map over a non-list')
+        sub = Tr(self.env, self.real)
+        sub.env[var] = ('%s_' % var, elt)
+        b, tb = sub.expr(body)
+        out = {'V': 'LV', 'S': 'LS', 'LS': 'LLS', 'P': 'LP'}.get(tb)
+        if out is None:
+            _fail(body, 'map body type')
+        return '(map (fun %s_ => %s) %s)' % (var, b, xs), out
+
+    def call(self, n):
+        o = self.o
+        f = n.func
+        args = n.args
+        kws = {k.arg: k.value for k in n.keywords}
+        if _is_np(f, 'dot') and len(args) == 2 and not kws:
+            a, ta = self.expr(args[0])
+            b, tb = self.expr(args[1])
+            tab = {('M', 'V'): ('mv', 'V'), ('M', 'M'): ('mm', 'M'), ('V', 'V'): ('dot', 'S')}
+            if (ta, tb) in tab:
+                return '(%s %s %s %s)' % (tab[(ta, tb)][0], o, a, b), tab[(ta, tb)][1]
+            _fail(n, 'np.dot on types %s,%s' % (ta, tb))
+        if _is_np(f, 'transpose') and len(args) == 1 and not kws:
+            a, ta = self.expr(args[0])
+            if ta == 'M':
+                return '(transpose %s)' % a, 'M'
+        if _is_np(f, 'mean') and len(args) == 1:
+            a, ta = self.expr(args[0])
+            if ta == 'LV' and set(kws) == {'axis'} and _const(kws['axis']) == 0:
+                return '(vmean %s %s)' % (o, a), 'V'
+            if ta == 'LS' and not kws and self.real:
+                return '(rmean %s)' % a, 'S'
+            _fail(n, 'np.mean form')
+        if isinstance(f, ast.Attribute) and f.attr == 'norm' and _is_np(f.value, 'linalg') and len(args) == 1 and not kws:
+            a, ta = self.expr(args[0])
+            if ta == 'V' and self.real:
+                return '(norm %s)' % a, 'S'
+            _fail(n, 'np.linalg.norm outside the real-number part')
+        if _is_np(f, 'ravel') and len(args) == 1 and not kws:
+            a, ta = self.expr(args[0])
+            if ta == 'V':
+                return '[vx %s; vy %s; vz %s]' % (a, a, a), 'LS'
+            if ta == 'LS':
+                return a, 'LS'
+            if ta == 'LLS':
+                return '(concat %s)' % a, 'LS'
+            _fail(n, 'np.ravel on type %s' % ta)
+        if _is_np(f, 'concatenate') and len(args) == 1 and isinstance(args[0], (ast.Tuple, ast.List)) and not kws:
+            parts = [self.expr(x) for x in args[0].elts]
+            if parts and all(t == 'LS' for _, t in parts):
+                return '(' + ' ++ '.join(p for p, _ in parts) + ')', 'LS'
+            _fail(n, 'np.concatenate of non-scalar-lists')
+        if _is_name(f, 'list') and len(args) == 1 and not kws:
+            a, ta = self.expr(args[0])
+            if ta in ('LV', 'LS', 'LLS', 'LP'):
+                return a, ta
+            _fail(n, 'list() of type %s' % ta)
+        if _is_name(f, 'map') and len(args) == 2 and isinstance(args[0], ast.Lambda) and not kws:
+            lam = args[0]
+            if len(lam.args.args) != 1 or lam.args.defaults or lam.args.vararg or lam.args.kwarg:
+                _fail(n, 'lambda shape')
+            return self.mapped(lam.args.args[0].arg, lam.body, args[1])
+        if _is_name(f, 'Pose'):
+            a = list(args)
+            r = kws.get('R_matrix', a[0] if a else None)
+            t = kws.get('t_vec', a[1] if len(a) > 1 else None)
+            if r is None or t is None or len(a) + len(kws) != 2:
+                _fail(n, 'Pose(...) needs exactly R_matrix and t_vec')
+            rv, rt_ = self.expr(r)
+            tv, tt = self.expr(t)
+            if (rt_, tt) == ('M', 'V'):
+                return '(MkPose %s %s)' % (rv, tv), 'P'
+            _fail(n, 'Pose(...) argument types')
+        if isinstance(f, ast.Attribute) and f.attr == 'from_rot_vec' and _is_name(f.value, 'Pose'):
+            return self.half_turn(n)
+        if isinstance(f, ast.Attribute) and _is_name(f.value, 'cls') and not kws:
+            vals = [self.expr(x) for x in args]
+            sig = {'calc_intersection_point': (['CART', 'P', 'P'], 'gen_calc_intersection_point %s' % o, 'V'),
+                   '_scale_system': (['BS', 'LP', 'S'], 'gen_scale_system %s' % o, 'TR')}
+            if self.real:
+                sig['calc_intersection_distance'] = (['CART', 'CART', 'P', 'P'], 'gen_calc_intersection_distance', 'S')
+            if f.attr in sig and [t for _, t in vals] == sig[f.attr][0]:
+                return '(%s %s)' % (sig[f.attr][1], ' '.join(v for v, _ in vals)), sig[f.attr][2]
+            _fail(n, 'call of cls.%s not in the fragment' % f.attr)
+        if isinstance(f, ast.Attribute) and f.attr in ('rotate_translate', 'rotate_translate_pose') and len(args) == 1 and not kws:
+            s, ts = self.expr(f.value)
+            a, ta = self.expr(args[0])
+            if ts == 'P' and f.attr == 'rotate_translate' and ta == 'V':
+                return '(gen_rotate_translate %s %s %s)' % (o, s, a), 'V'
+            if ts == 'P' and f.attr == 'rotate_translate_pose' and ta == 'P':
+                return '(gen_rotate_translate_pose %s %s %s)' % (o, s, a), 'P'
+            _fail(n, 'method argument types')
+        _fail(n, 'call not in the fragment')
+
+    # ---------------------------------------------------------------- statements
+    def first_value(self, n):
+        """list(D.values())[0] -> name of D"""
+        if isinstance(n, ast.Subscript) and _const(n.slice) == 0 and isinstance(n.value, ast.Call) and _is_name(n.value.func, 'list') \
+                and len(n.value.args) == 1 and isinstance(n.value.args[0], ast.Call) and not n.value.args[0].args \
+                and isinstance(n.value.args[0].func, ast.Attribute) and n.value.args[0].func.attr == 'values' \
+                and isinstance(n.value.args[0].func.value, ast.Name):
+            return n.value.args[0].func.value.id
+        return None
+
+    def block(self, stmts):
+        """Straight-line block ending in `return e`; returns (coq term, type)."""
+        out = []
+        closers = []
+        for k, st in enumerate(stmts):
+            if isinstance(st, ast.Expr) and isinstance(st.value, ast.Constant) and isinstance(st.value.value, str):
+                continue
+            if isinstance(st, (ast.Assign, ast.AnnAssign)):
+                tg = st.targets[0] if isinstance(st, ast.Assign) else st.target
+                if (isinstance(st, ast.Assign) and len(st.targets) != 1) or not isinstance(tg, ast.Name) or st.value is None:
+                    _fail(st, 'assignment target')
+                d = self.first_value(st.value)
+                if d is not None:
+                    dv, dt = self.expr(ast.Name(id=d))
+                    if dt != 'BS':
+                        _fail(st, 'first value of a non-dict')
+                    out.append('match %s with [] => None | (_, %s) :: _ => Some (' % (dv, _cid(tg.id)))
+                    closers.append(') end')
+                    self.env[tg.id] = (_cid(tg.id), 'P')
+                    self.opt_match = True
+                    continue
+                v, t = self.expr(st.value)
+                out.append('let %s := %s in' % (_cid(tg.id), v))
+                self.env[tg.id] = (_cid(tg.id), t)
+                continue
+            if isinstance(st, ast.If) and not st.orelse:
+                c, tc = self.expr(st.test)
+                if tc != 'B':
+                    _fail(st, 'condition type')
+                sub = Tr(self.env, self.real)
+                inner = []
+                rebound = []
+                for s2 in st.body:
+                    if not (isinstance(s2, ast.Assign) and len(s2.targets) == 1 and isinstance(s2.targets[0], ast.Name)):
+                        _fail(s2, 'only assignments inside if')
+                    v, t = sub.expr(s2.value)
+                    nm = s2.targets[0].id
+                    if nm in self.env:
+                        if self.env[nm][1] != t:
+                            _fail(s2, 'rebinding changes type')
+                        rebound.append(nm)
+                    inner.append('let %s := %s in' % (_cid(nm), v))
+                    sub.env[nm] = (_cid(nm), t)
+                if len(set(rebound)) != 1:
+                    _fail(st, 'if-block must rebind exactly one existing variable')
+                nm = _cid(rebound[0])
+                out.append('let %s := if %s then (%s %s) else %s in' % (nm, c, ' '.join(inner), nm, nm))
+                continue
+            if isinstance(st, ast.Return) and k == len(stmts) - 1 and st.value is not None:
+                v, t = self.expr(st.value)
+                return ' '.join(out) + ' ' + v + ' '.join(closers), ('OP' if self.opt_match and t == 'P' else t)
+            _fail(st, 'statement not in the fragment')
+        _fail(stmts[-1] if stmts else 'empty', 'block does not end in return')
+
+
+def _functions(tree, cls):
+    for n in tree.body:
+        if isinstance(n, ast.ClassDef) and n.name == cls:
+            return {f.name: f for f in n.body if isinstance(f, ast.FunctionDef)}
+    raise TranslationError('class %s not found' % cls)
+
+
+def _params(fn, skip=1):
+    a = fn.args
+    if a.vararg or a.kwarg or a.kwonlyargs or a.posonlyargs:
+        _fail(fn, 'parameter list shape')
+    return [x.arg for x in a.args[skip:]]
+
+
+def _body(fn):
+    b = list(fn.body)
+    if b and isinstance(b[0], ast.Expr) and isinstance(b[0].value, ast.Constant) and isinstance(b[0].value.value, str):
+        b = b[1:]
+    return b
+
+
+COQ_T = {'S': 'F', 'V': 'vec F', 'M': 'mat F', 'P': 'pose F', 'LV': 'list (vec F)', 'BS': 'list (Z * pose F)',
+         'LP': 'list (pose F)', 'CART': 'vec F'}
+
+
+def _emit(name, fn, types, real=False, want=None, expect_params=None, method=False):
+    ps = _params(fn, 0 if method else 1)
+    if method and (not ps or ps[0] != 'self'):
+        _fail(fn, 'not an instance method')
+    if expect_params is not None and ps != expect_params:
+        _fail(fn, 'parameters of %s are %s, expected %s' % (fn.name, ps, expect_params))
+    if len(ps) != len(types):
+        _fail(fn, 'arity')
+    tr = Tr({p: (_cid(p), t) for p, t in zip(ps, types)}, real)
+    ps = [_cid(p) for p in ps]
+    body, t = tr.block(_body(fn))
+    if want and t != want:
+        _fail(fn, '%s returns type %s, expected %s' % (fn.name, t, want))
+    ct = (lambda x: COQ_T[x].replace(' F', ' R').replace('F', 'R')) if real else (lambda x: COQ_T[x])
+    binders = ' '.join('(%s : %s)' % (p, ct(t_)) for p, t_ in zip(ps, types))
+    return 'Definition %s %s%s :=\n  %s.\n' % (name, '' if real else '(o : Ops F) ', binders, body)
+
+
+def _check_dump(node, expected, what):
+    got = ast.dump(node)
+    if got != expected:
+        raise TranslationError('%s has an unrecognised shape: %s' % (what, ast.unparse(node)[:200]))
+
+
+def _expr_dump(src):
+    return ast.dump(ast.parse(src).body[0])
+
+
+def _loop_map(tr, stmts, i, coll_var):
+    """`R = {}` + `for k, p in D.items(): R[k] = e(p)`   or   `R = {k: e(p) for k, p in D.items()}`."""
+    st = stmts[i]
+    tg = st.targets[0] if isinstance(st, ast.Assign) else getattr(st, 'target', None)
+    if not isinstance(tg, ast.Name) or st.value is None:
+        _fail(st, 'dict construction')
+    res = tg.id
+    if isinstance(st.value, ast.Dict) and not st.value.keys and i + 1 < len(stmts) and isinstance(stmts[i + 1], ast.For):
+        fo = stmts[i + 1]
+        ok = (isinstance(fo.target, ast.Tuple) and len(fo.target.elts) == 2 and all(isinstance(e, ast.Name) for e in fo.target.elts)
+              and isinstance(fo.iter, ast.Call) and isinstance(fo.iter.func, ast.Attribute) and fo.iter.func.attr == 'items'
+              and not fo.iter.args and not fo.orelse and len(fo.body) == 1 and isinstance(fo.body[0], ast.Assign)
+              and isinstance(fo.body[0].targets[0], ast.Subscript) and _is_name(fo.body[0].targets[0].value, res))
+        if not ok:
+            _fail(fo, 'loop shape')
+        kname, pname = fo.target.elts[0].id, fo.target.elts[1].id
+        if not _is_name(fo.body[0].targets[0].slice, kname):
+            _fail(fo, 'result key is not the input key')
+        dname, val, used = fo.iter.func.value, fo.body[0].value, 2
+    elif isinstance(st.value, ast.DictComp) and len(st.value.generators) == 1:
+        g = st.value.generators[0]
+        ok = (isinstance(g.target, ast.Tuple) and len(g.target.elts) == 2 and all(isinstance(e, ast.Name) for e in g.target.elts)
+              and not g.ifs and isinstance(g.iter, ast.Call) and isinstance(g.iter.func, ast.Attribute)
+              and g.iter.func.attr == 'items' and not g.iter.args)
+        if not ok:
+            _fail(st, 'dict comprehension shape')
+        kname, pname = g.target.elts[0].id, g.target.elts[1].id
+        if not _is_name(st.value.key, kname):
+            _fail(st, 'result key is not the input key')
+        dname, val, used = g.iter.func.value, st.value.value, 1
+    else:
+        _fail(st, 'dict construction')
+    d, dt = tr.expr(dname)
+    if dt != 'BS':
+        _fail(st, 'iteration over a non-dict')
+    sub = Tr(tr.env, tr.real)
+    sub.env[pname] = ('(snd kv)', 'P')
+    v, t = sub.expr(val)
+    if t != 'P':
+        _fail(st, 'dict value type')
+    return res, '(map (fun kv => (fst kv, %s)) %s)' % (v, d), used
+
+
+def translate(repo):
+    """Returns (Gen_Code.v text, info).  Raises TranslationError on any unrecognised shape."""
+    loc = os.path.join(repo, 'cflib', 'localization')
+    src = {k: open(os.path.join(loc, k + '.py')).read() for k in
+           ('lighthouse_types', 'lighthouse_system_aligner', 'lighthouse_system_scaler')}
+    trees = {k: ast.parse(v) for k, v in src.items()}
+    pose = _functions(trees['lighthouse_types'], 'Pose')
+    al = _functions(trees['lighthouse_system_aligner'], 'LighthouseSystemAligner')
+    sc = _functions(trees['lighthouse_system_scaler'], 'LighthouseSystemScaler')
+    info = {}
+    gen = []       # generic section
+    genr = []      # real-number part
+
+    # ---- Pose: storage, accessors, the three methods
+    init = _body(pose['__init__'])
+    if _params(pose['__init__']) != ['R_matrix', 't_vec'] or len(init) != 2:
+        _fail(pose['__init__'], 'Pose.__init__ shape')
+    _check_dump(init[0], _expr_dump('self._R_matrix = np.array(R_matrix)'), 'Pose.__init__ (rotation is copied into a new array)')
+    _check_dump(init[1], _expr_dump('self._t_vec = np.array(t_vec)'), 'Pose.__init__ (translation is copied into a new array)')
+    for prop, fld in (('rot_matrix', '_R_matrix'), ('translation', '_t_vec')):
+        b = _body(pose[prop])
+        if len(b) != 1:
+            _fail(pose[prop], 'accessor shape')
+        _check_dump(b[0], _expr_dump('return self.%s' % fld), 'Pose.%s' % prop)
+    b = _body(pose['from_rot_vec'])
+    if len(b) != 1:
+        _fail(pose['from_rot_vec'], 'from_rot_vec shape')
+    _check_dump(b[0], _expr_dump('return Pose(Rotation.from_rotvec(R_vec).as_matrix(), t_vec)'), 'Pose.from_rot_vec')
+    gen.append(_emit('gen_rotate_translate', pose['rotate_translate'], ['P', 'V'], want='V', method=True))
+    gen.append(_emit('gen_rotate_translate_pose', pose['rotate_translate_pose'], ['P', 'P'], want='P', method=True))
+    # Pose.scale: exactly one statement, REBINDING self._t_vec to a new value (an augmented assignment would write the
+    # shared array in place and is rejected)
+    b = _body(pose['scale'])
+    ps = _params(pose['scale'])
+    if len(b) != 1 or len(ps) != 1 or not isinstance(b[0], ast.Assign) or len(b[0].targets) != 1:
+        _fail(pose['scale'], 'Pose.scale must be a single rebinding assignment')
+    _check_dump(b[0].targets[0], ast.dump(ast.parse('self._t_vec').body[0].value).replace('Load()', 'Store()', 1)
+                if False else ast.dump(ast.parse('self._t_vec = 0').body[0].targets[0]), 'Pose.scale target')
+    tr = Tr({'self': ('self', 'P'), ps[0]: (_cid(ps[0]), 'S')})
+    ps = [_cid(ps[0])]
+    v, t = tr.expr(b[0].value)
+    if t != 'V':
+        _fail(b[0], 'Pose.scale value type')
+    gen.append('Definition gen_scale (o : Ops F) (self : pose F) (%s : F) : pose F :=\n  MkPose (rot self) %s.\n' % (ps[0], v))
+
+    # ---- aligner
+    gen.append(_emit('gen_de_flip', al['_de_flip_transformation'], ['P', 'LV', 'BS'], want='OP'))
+    # _calc_residual: first statement builds the transform from the parameters; the rest is translated with the
+    # transform as an argument
+    cr = al['_calc_residual']
+    ps = _params(cr)
+    b = _body(cr)
+    if len(ps) != 4 or not b:
+        _fail(cr, '_calc_residual shape')
+    _check_dump(b[0], _expr_dump('transform = cls._Pose_from_params(%s)' % ps[0]), '_calc_residual: transform from parameters')
+    tr = Tr({'transform': ('transform', 'P'), ps[1]: (_cid(ps[1]), 'V'), ps[2]: (_cid(ps[2]), 'LV'), ps[3]: (_cid(ps[3]), 'LV')})
+    ps = [_cid(p) for p in ps]
+    body, t = tr.block(b[1:])
+    if t != 'LS':
+        _fail(cr, '_calc_residual result type')
+    gen.append('Definition gen_residual (o : Ops F) (transform : pose F) (%s : vec F) (%s %s : list (vec F)) : list F :=\n  %s.\n'
+               % (ps[1], ps[2], ps[3], body))
+    b = _body(al['_Pose_from_params'])
+    pp = _params(al['_Pose_from_params'])
+    if len(b) != 1 or len(pp) != 1:
+        _fail(al['_Pose_from_params'], 'shape')
+    _check_dump(b[0], _expr_dump('return Pose.from_rot_vec(R_vec=%s[:3], t_vec=%s[3:])' % (pp[0], pp[0])), '_Pose_from_params')
+    # _find_transformation: least_squares on cls._calc_residual from x0 = zeros(6) with args (origin, x_axis, xy_plane)
+    ft = al['_find_transformation']
+    fp = _params(ft)
+    b = _body(ft)
+    if len(fp) != 3 or len(b) != 4:
+        _fail(ft, '_find_transformation shape')
+    _check_dump(b[0], _expr_dump('args = (%s, %s, %s)' % tuple(fp)), '_find_transformation args')
+    if not (isinstance(b[1], ast.Assign) and _is_name(b[1].targets[0], 'x0') and isinstance(b[1].value, ast.Call)
+            and _is_np(b[1].value.func, 'zeros') and len(b[1].value.args) == 1 and _const(b[1].value.args[0]) == 6):
+        _fail(b[1], 'start vector is not np.zeros(6)')
+    ls = b[2].value if isinstance(b[2], ast.Assign) else None
+    if not (isinstance(ls, ast.Call) and ast.unparse(ls.func) == 'scipy.optimize.least_squares' and len(ls.args) == 2
+            and ast.unparse(ls.args[0]) == 'cls._calc_residual' and _is_name(ls.args[1], 'x0')
+            and _is_name(b[2].targets[0], 'result')):
+        _fail(b[2], 'optimiser call shape')
+    kw = {k.arg: k.value for k in ls.keywords}
+    if not _is_name(kw.get('args'), 'args'):
+        _fail(b[2], 'optimiser args')
+    info['least_squares'] = {k: ast.unparse(v) for k, v in kw.items() if k != 'args'}
+    _check_dump(b[3], _expr_dump('return cls._Pose_from_params(result.x)'), '_find_transformation result')
+    # align: optimiser -> de-flip -> the same transformation for every entry -> (result, transformation)
+    an = al['align']
+    ap = _params(an)
+    b = _body(an)
+    if len(ap) != 4 or len(b) < 4:
+        _fail(an, 'align shape')
+    _check_dump(b[0], _expr_dump('raw_transformation = cls._find_transformation(%s, %s, %s)' % tuple(ap[:3])), 'align: optimiser call')
+    _check_dump(b[1], _expr_dump('transformation = cls._de_flip_transformation(raw_transformation, %s, %s)' % (ap[1], ap[3])),
+                'align: de-flip call')
+    tr = Tr({'transformation': ('transformation', 'P'), ap[3]: (_cid(ap[3]), 'BS')})
+    res, loop, used = _loop_map(tr, b, 2, ap[3])
+    rest = b[2 + used:]
+    if len(rest) != 1:
+        _fail(an, 'align tail')
+    _check_dump(rest[0], _expr_dump('return %s, transformation' % res), 'align result')
+    gen.append('Definition gen_align_loop (o : Ops F) (transformation : pose F) (%s : list (Z * pose F)) : list (Z * pose F) :=\n  %s.\n'
+               % (_cid(ap[3]), loop))
+
+    # ---- scaler
+    gen.append(_emit('gen_calc_intersection_point', sc['calc_intersection_point'], ['CART', 'P', 'P'], want='V'))
+    # _scale_system: copies of every pose, each copy scaled by the one factor, (bs, cf, factor)
+    ss = sc['_scale_system']
+    sp = _params(ss)
+    b = _body(ss)
+    if len(sp) != 3 or len(b) != 5:
+        _fail(ss, '_scale_system shape')
+    want = ['bs_scaled = {bs_id: copy.copy(pose) for bs_id, pose in %s.items()}' % sp[0],
+            'for pose in bs_scaled.values():\n    pose.scale(%s)' % sp[2],
+            'cf_scaled = [copy.copy(pose) for pose in %s]' % sp[1],
+            'for pose in cf_scaled:\n    pose.scale(%s)' % sp[2],
+            'return bs_scaled, cf_scaled, %s' % sp[2]]
+    for st, w in zip(b, want):
+        _check_dump(st, _expr_dump(w), '_scale_system (copy, then scale the copies)')
+    gen.append('Definition gen_scale_system (o : Ops F) (%s : list (Z * pose F)) (%s : list (pose F)) (%s : F) :=\n'
+               '  (map (fun kv => (fst kv, gen_scale o (snd kv) %s)) %s, map (fun p_ => gen_scale o p_ %s) %s, %s).\n'
+               % tuple(_cid(x) for x in (sp[0], sp[1], sp[2], sp[2], sp[0], sp[2], sp[1], sp[2])))
+    # real-number part
+    genr.append(_emit('gen_calc_intersection_distance', sc['calc_intersection_distance'], ['CART', 'CART', 'P', 'P'], real=True, want='S'))
+    genr.append(_emit('gen_scale_fixed_point', sc['scale_fixed_point'], ['BS', 'LP', 'V', 'P'], real=True, want='TR'))
+    # _calculate_mean_diagonal / scale_diagonals: structure only (nested iteration is flattened in the model)
+    md = _body(sc['_calculate_mean_diagonal'])
+    mp = _params(sc['_calculate_mean_diagonal'])
+    want = ['diagonals: list[float] = []',
+            'for cf_pose, sample in zip(%s, %s):\n    for bs_id, vectors in sample.angles_calibrated.items():\n'
+            '        diagonals.append(cls.calc_intersection_distance(vectors[0], vectors[3], %s[bs_id], cf_pose))\n'
+            '        diagonals.append(cls.calc_intersection_distance(vectors[1], vectors[2], %s[bs_id], cf_pose))' % (mp[1], mp[2], mp[0], mp[0]),
+            'estimated_diagonal = np.mean(diagonals)', 'return estimated_diagonal']
+    if len(md) != 4:
+        _fail(sc['_calculate_mean_diagonal'], 'shape')
+    for st, w in zip(md, want):
+        _check_dump(st, _expr_dump(w), '_calculate_mean_diagonal')
+    sd = _body(sc['scale_diagonals'])
+    dp = _params(sc['scale_diagonals'])
+    want = ['estimated_diagonal = cls._calculate_mean_diagonal(%s, %s, %s)' % tuple(dp[:3]),
+            'scale_factor = %s / estimated_diagonal' % dp[3],
+            'return cls._scale_system(%s, %s, scale_factor)' % tuple(dp[:2])]
+    if len(sd) != 3:
+        _fail(sc['scale_diagonals'], 'shape')
+    for st, w in zip(sd, want):
+        _check_dump(st, _expr_dump(w), 'scale_diagonals')
+
+    text = ('(* GENERATED on every run by harness/props/c16.py (translate) from cflib/localization/lighthouse_types.py,\n'
+            '   lighthouse_system_aligner.py and lighthouse_system_scaler.py.  Do not edit. *)\n'
+            'From Coq Require Import ZArith List Reals.\nFrom CF Require Import C16.Model.\nImport ListNotations.\n\n'
+            'Section Gen.\nContext {F : Type}.\n\n' + '\n'.join(gen) + '\nEnd Gen.\n\n' + '\n'.join(genr))
+    return text, info
+
+
+def generate(ctx):
+    text, info = translate(ctx.repo)
+    path = os.path.join(coqrun.COQ_DIR, 'C16', 'Gen_Code.v')
+    old = open(path).read() if os.path.exists(path) else None
+    if old != text:
+        with open(path, 'w') as f:
+            f.write(text)
+    info['functions'] = text.count('Definition ')
+    info['file'] = 'coq/C16/Gen_Code.v'
+    return info
